@@ -811,9 +811,12 @@ pub fn parse_query(iter: &mut Iter<'_>) -> Query {
         }
         Some(Token::Ident(ref s)) if s == "search" => {
             iter.next();
-            if let Some(Token::Ident(ref s)) = iter.peek().cloned() {
-                return Query::Search(s.clone());
-            }
+            // Anything else used to be evaluated as if the word
+            // `search` had not been there.
+            return match iter.peek().cloned() {
+                Some(Token::Ident(ref s)) => Query::Search(s.clone()),
+                _ => Query::Error("Expected a word to search for".to_string()),
+            };
         }
         _ => (),
     }
